@@ -412,6 +412,11 @@ static void s_cancel(void *ctx)
 	atomic_fetch_add_explicit(&t->cancels_done, 1, memory_order_release);
 }
 
+/* suspends and resumes random sources of the descriptor while the streams flow: every resume has to re-arm what the source
+ * needs on the shared registration (_dispatch_unote_resume_muxed), whatever the other sources have armed or disarmed meanwhile */
+typedef struct { struct strial *t; _Atomic int stop; uint64_t pairs; vf_rng_t rng; } churn_t;
+static void *churn_main(void *arg);
+
 static void run_src_trial(int idx)
 {
 	strial_t *t = calloc(1, sizeof(*t));
@@ -457,12 +462,16 @@ static void run_src_trial(int idx)
 		if (i == peer_at) pthread_create(&p->th, NULL, peer_main, p);
 		if (i < t->nsrc) { dispatch_activate(t->src[order[i]].ds); if (vf_rnd_n(r, 2)) nap_us(vf_rnd_n(r, 300)); }
 	}
+	churn_t ch; memset(&ch, 0, sizeof(ch)); ch.t = t; vf_rng_seed(&ch.rng, t->salt, 300);
+	pthread_t cth; int churn = (int)vf_rnd_n(r, 2);
+	if (churn) pthread_create(&cth, NULL, churn_main, &ch);
 	if (victim >= 0) {
 		nap_us(vf_rnd_range(r, 50, 3000));
 		dispatch_source_cancel(t->src[victim].ds);
 	}
 	/* both streams must complete; then every source that has not cancelled itself is cancelled from here */
 	while (!atomic_load(&t->in_complete) || !atomic_load(&t->out_complete)) { nap_us(200); }
+	if (churn) { atomic_store(&ch.stop, 1); pthread_join(cth, NULL); vf_count("shared_descriptor_suspend_resume_pairs", ch.pairs); }
 	for (int i = 0; i < t->nsrc; i++) dispatch_source_cancel(t->src[i].ds);
 	vf_wait_counter(&t->cancels_done, (uint64_t)t->nsrc, "duplex:sources:cancel-handlers");
 	/* everything the write sources sent is in the socket: let the peer take it out before it is stopped */
@@ -678,6 +687,20 @@ static void run_sib_trial(int idx)
 	for (int i = 0; i < t->nops; i++) free(t->ops[i].got);
 	if (t->hq_kind != 2) dispatch_release(t->hq);
 	dispatch_release(t->cq);
+}
+
+static void *churn_main(void *arg)
+{
+	churn_t *c = arg; strial_t *t = c->t;
+	while (!atomic_load(&c->stop)) {
+		dsrc_t *s = &t->src[vf_rnd_n(&c->rng, (uint32_t)t->nsrc)];
+		dispatch_suspend(s->ds);
+		nap_us(vf_rnd_range(&c->rng, 20, 400));
+		dispatch_resume(s->ds);
+		c->pairs++;
+		nap_us(vf_rnd_range(&c->rng, 20, 600));
+	}
+	return NULL;
 }
 
 int main(int argc, char **argv)
